@@ -440,6 +440,8 @@ func (c *Conn) Parse(data []byte) (retErr error) {
 	var msgType MessageType
 	var protocolMessage *[]byte
 	var isProtocolMessage bool
+	// a whole text/binary message is ready; its buffer is nil when it is empty.
+	var isDataMessage bool
 	var opcode MessageType
 	var ok, fin, compress bool
 	var totalFrameSize int
@@ -522,6 +524,7 @@ func (c *Conn) Parse(data []byte) (retErr error) {
 						c.msgType = 0
 						c.compress = false
 						c.expectingFragments = false
+						isDataMessage = true
 					} else {
 						c.expectingFragments = true
 					}
@@ -561,9 +564,10 @@ func (c *Conn) Parse(data []byte) (retErr error) {
 			return err
 		}
 
-		if message != nil {
+		if isDataMessage {
 			c.handleMessage(msgType, message)
 			message = nil
+			isDataMessage = false
 		}
 		if frame != nil {
 			c.handleDataFrame(msgType, fin, frame)
